@@ -122,8 +122,10 @@ RecvEv(e) ==
                   THEN {q \in r.s.pend : q.a # e.src} \cup {ThePend(obs, e.src)} ELSE r.s.pend
       \* a delivered frame teaches a learning node where its source address lives (the harness knows the frame inside a
       \* payload datagram from the interface read that caused it)
+      \* (on an unencrypted session anything that arrives is taken as it is - also a late sealed datagram of an earlier,
+      \*  encrypted connection, whose bytes then pass for a frame: what is learned there is not predicted)
       predCache == IF e.res = "data" /\ e.fk THEN LearnFrom(r.s, c, e.src, e.fsrc, now) ELSE r.s.cache
-      pred == [r.s EXCEPT !.pend = predPend, !.cache = IF e.res = "data" /\ ~e.fk THEN obs.cache ELSE predCache]
+      pred == [r.s EXCEPT !.pend = predPend, !.cache = IF e.res = "data" /\ (~e.fk \/ plainSrc) THEN obs.cache ELSE predCache]
       replyOK == \/ e.res \notin {"reply", "initialized-reply"} /\ CountTo(e.sent, e.src, {"init", "empty", "rot"}) = Count(r.out, <<e.src, "init">>)
                  \/ e.res = "reply" /\ CountTo(e.sent, e.src, InitTags) = 1 + Count(r.out, <<e.src, "init">>) - 1
                  \/ e.res = "initialized-reply" /\ CountTo(e.sent, e.src, {"init", "rot"}) = 1 + Count(r.out, <<e.src, "init">>)
@@ -170,7 +172,7 @@ RecvEv(e) ==
   /\ When(e.res \in {"data", "nodeinfo", "keepalive", "close", "none"} /\ genuine /\ ~plainSrc /\ \E x \in sess[e.n] : x[1] = e.src,
         Chk({"C02"}, "opened-only-if-sealed-for-this-connection",
             /\ <<e.src, e.orig>> \in sess[e.n]
-            /\ (e.odst = e.n \/ e.odst \in pre.own)))
+            /\ e.odst = e.n))      \* (odst: the node the datagram was originally addressed to, by whatever address)
   /\ sess' = IF e.res \in {"initialized", "initialized-reply"} /\ e.src \in Addrs(pre.pend)
               THEN [sess EXCEPT ![e.n] = {x \in @ : x[1] # e.src} \cup {<<e.src, e.info.nid>>}] ELSE sess
   /\ Adopt(e) /\ UNCHANGED <<now, inst>>
